@@ -6,7 +6,7 @@ def run(chk):
         corr=[dict(name="peephole(Model/Peephole.v over the generated rule table vs real doOptimize via hook VerifOptimize, 1-3 passes; third pass = identity)", cmd="c02-corr", stats="C02_corr_stats.json", n_quick=1500, n_thorough=20000),
               dict(name="vm(Model/VM.v runs the real compiled code of generated programs, optimizer on and off alternating: output, success/failure and failing position must agree)", cmd="vm-corr", stats="VM_corr_stats.json", n_quick=40, n_thorough=400)],
         system=[dict(name="optimizer off vs on", cmd="c02-diff", stats="C02_diff_stats.json", n_quick=60, n_thorough=1500,
-                     what="every string literal of the repository's test tables evaluated through the hook VerifEval with the optimizer off and on (stdout, returned values with dynamic types, success/failure, error stage and line compared), plus generated programs of the scope, core and fault profiles loaded and run in both modes")],
+                     what="every string literal of the repository's test tables evaluated through the hook VerifEval with the optimizer off and on (stdout, returned values with dynamic types, success/failure, error stage and line compared), plus every fused arithmetic instruction at the bounds of every sized integer type (x++, x--, x += k, x -= k, x = x + k - k', local op local, s[c] forms on int8 / uint8 / int / uint32 locals), plus generated programs of the scope, core and fault profiles (incl. peephole-shaped statements, fusable operands on the skipped side of && and ||) loaded and run in both modes")],
         assumptions=["containers use a key only through its numeric/object payload (hypotheses ext_get_key / ext_set_key; true of sliceT.Get, numericMap, stringMap, stringT.Get)",
                      "whole-program transparency = per-rule transparency (theorem) + shape of the optimizer (theorem) + 'jumps never target the inside of a fused window and block lengths are stable under re-optimisation', which is NOT proved: it is checked by the third-pass-identity test and the off/on differential"])
 def replay(path):
